@@ -255,6 +255,11 @@ pub struct CmpObs {
 pub trait Subject: Send + Sync {
     fn idx(&self) -> usize;
     fn type_name(&self) -> &'static str;
+    /// a placeholder for a subject whose crate does not compile against the current tree (that refusal is
+    /// reported by C08); every explorer skips it
+    fn excluded(&self) -> bool {
+        false
+    }
     /// `try_new(raw)` (or `new(raw)` when the declaration has no validation)
     fn construct(&self, raw: &Val) -> Outcome;
     /// for String newtypes: the constructor called with `&str` (it takes `impl Into<String>`)
